@@ -55,6 +55,8 @@ def plan(tier, seed):
     sp = [{"gen": "stalepath", "seeds": [base + 900000 + i + j for j in range(per)]} for i in range(0, n_sp, per)]
     n_bl = 60 if tier == "quick" else 1500
     bl = [{"gen": "blocked", "seeds": [base + 950000 + i + j for j in range(per)]} for i in range(0, n_bl, per)]
+    n_cl = 30 if tier == "quick" else 750
+    bl += [{"gen": "cidlate", "seeds": [base + 960000 + i + j for j in range(per)]} for i in range(0, n_cl, per)]
     while r or t or k or sp or bl:
         if bl:
             out.append(bl.pop(0))
@@ -181,6 +183,73 @@ def stalepath_case(seed):
         return sc
     if sim.rebound_at is not None and sim.rebound_at >= 1:
         fates["forced"] = {"c2s:%d" % (sim.rebound_at - 1): "late:%s" % rng.choice([0.2, 0.4, 0.8])}
+    return sc
+
+
+def cidlate_case(seed):
+    """Directed: the datagram in which one endpoint issues its connection IDs (NEW_CONNECTION_ID frames) is only delayed,
+    for seconds; the frames are declared lost and sent again, the receiver uses them, changes its connection ID twice
+    (retiring the first of them) — and then the original, late copy arrives.  Nothing was dropped: the transfer in
+    progress has to complete."""
+    import random
+
+    from .. import simnet
+    from ..scenarios import gen_config
+    from ..simnet import Monitor
+
+    rng = random.Random("cidlate/%s" % seed)
+    opts = gen_config(rng)
+    for k in ("retry", "frontend_vn"):
+        opts.pop(k, None)
+    if opts.get("versions_server") == ["v1"]:
+        opts.pop("versions_server")
+    issuer = rng.choice(["server", "server", "client"])
+    other = "client" if issuer == "server" else "server"
+    delay = rng.choice([0.01, 0.02])
+    hold = rng.choice([0.3, 0.5, 0.8, 1.5])
+    fates = {"delay": delay, "adv_seconds": 0.0}
+    base = 0 if other == "client" else 1
+    t1 = 0.6
+    script = []
+    sc = {"seed": seed, "opts": opts, "fates": fates, "script": script, "lateness": 0.0, "horizon": hold + 160.0}
+
+    class Find(Monitor):
+        name = "find-ncid"
+
+        def __init__(self):
+            super().__init__()
+            self.index = None
+
+        def on_datagram_out(self, ep, rec, t):
+            if self.index is None and ep.name == issuer and any(f["name"] == "NEW_CONNECTION_ID" for v in rec.views or [] for f in v.frames):
+                self.index = rec.index
+                self.t = t
+
+    find = Find()
+    sim = simnet.SimNet(opts, simnet.Fates(seed, fates), [], [find], seed=seed, horizon=0.5)
+    try:
+        simnet.run_sim(sim)
+    except Exception:
+        return sc
+    if find.index is None:
+        return sc
+    fates["forced"] = {"%s:%d" % ("s2c" if issuer == "server" else "c2s", find.index): "late:%s" % hold}
+    # until the late copy arrives the receiver of the IDs sends as little as possible (every eighth packet it sends makes
+    # its gapped ACK ack-eliciting, and once that is acknowledged the late packet number counts as a duplicate); the
+    # issuer sends a little, which is what makes it declare the held-back packet lost and send the frames again
+    th = find.t
+    ib = 1 - base
+    late = th + hold + delay
+    script += [{"t": round(th + 0.01 + 0.01 * i, 4), "side": issuer, "op": "write", "sid": ib + 2, "n": rng.choice([300, 1000]), "fin": False} for i in range(3)]
+    c1 = th + hold * rng.choice([0.4, 0.5])
+    script += [{"t": round(c1, 4), "side": other, "op": "change_cid"},
+               {"t": round(c1 + hold * rng.choice([0.2, 0.3]), 4), "side": other, "op": "change_cid"},
+               {"t": round(late + 0.3, 4), "side": other, "op": "write", "sid": base, "n": rng.choice([3000, 10240]), "fin": True},
+               {"t": round(late + 0.3, 4), "side": issuer, "op": "write", "sid": ib + 2, "n": 4400, "fin": True},
+               {"t": round(late + 0.5, 4), "side": other, "op": "change_cid"},
+               {"t": round(late + 0.9, 4), "side": other, "op": "write", "sid": base + 2, "n": rng.choice([2000, 4500]), "fin": True},
+               {"t": round(late + 1.3, 4), "side": other, "op": "change_cid"}]
+    script.sort(key=lambda o: o["t"])
     return sc
 
 
@@ -322,6 +391,11 @@ def run_batch(batch):
             res.count("stalepath_cases")
             res.count("stalepath_cases_with_late_old_address_datagram", 1 if sc["fates"].get("forced") else 0)
             res.count("obs_datagrams_to_stale_address", sim.stale_address_drops)
+        elif batch["gen"] == "cidlate":
+            sc = cidlate_case(seed)
+            sim, dm, ok = run_scenario(sc, res, {"gen": "cidlate", "seeds": [seed]})
+            res.count("cidlate_cases")
+            res.count("cidlate_cases_with_held_back_new_connection_id_datagram", 1 if sc["fates"].get("forced") else 0)
         elif batch["gen"] == "blocked":
             sc = blocked_case(seed)
             sim, dm, ok = run_scenario(sc, res, {"gen": "blocked", "seeds": [seed]})
